@@ -90,6 +90,8 @@ Spec == Init /\ [][Next]_vars
 
 \* export every finished program (used with -workers 1)
 Export == done # <<>> => PrintT(<<"PROG", ToJson(done[1])>>)
+\* export with the rewritten variants of the condition (C18)
+ExportRW == done # <<>> => PrintT(<<"PROGRW", ToJson([orig |-> done[1], variants |-> Variants(done[1].cond)])>>)
 \* structural sanity of the builder
 WellFormed == \A j \in 1..Len(stack) : NLeaves(stack[j]) <= MaxLeaves + 1 /\ NotDepth(stack[j]) <= MaxNot
 =========================================================================
